@@ -27,6 +27,11 @@ pub struct MemServer {
 	/// every connection's service is built from a clone of the builder on which `set_http_middleware` is called again
 	/// (as an accept loop that configures middleware per connection does)
 	pub per_conn_http_middleware: bool,
+	/// the same with `set_rpc_middleware` (the per-connection pattern of examples/jsonrpsee_as_service.rs)
+	pub per_conn_rpc_middleware: bool,
+	/// ONE tower service is built and cloned for every connection (the pattern of examples/ws_dual_stack.rs)
+	pub one_service_for_all: bool,
+	shared_service: std::sync::Mutex<Option<jsonrpsee_server::TowerService<Identity, Identity>>>,
 }
 
 #[derive(Debug, Clone)]
@@ -78,19 +83,24 @@ impl MemServer {
 	pub fn new(cfg: ServerConfig, methods: impl Into<Methods>) -> Self {
 		let (stop_handle, handle) = stop_channel();
 		let builder = jsonrpsee_server::Server::builder().set_config(cfg).to_service_builder();
-		MemServer { builder, methods: methods.into(), stop_handle, handle, duplex_capacity: 1 << 20, per_conn_http_middleware: false }
+		MemServer { builder, methods: methods.into(), stop_handle, handle, duplex_capacity: 1 << 20, per_conn_http_middleware: false, per_conn_rpc_middleware: false, one_service_for_all: false, shared_service: Default::default() }
 	}
 
 	/// The same around a service builder assembled by the caller.
 	pub fn with_builder(builder: SvcBuilder, methods: impl Into<Methods>) -> Self {
 		let (stop_handle, handle) = stop_channel();
-		MemServer { builder, methods: methods.into(), stop_handle, handle, duplex_capacity: 1 << 20, per_conn_http_middleware: false }
+		MemServer { builder, methods: methods.into(), stop_handle, handle, duplex_capacity: 1 << 20, per_conn_http_middleware: false, per_conn_rpc_middleware: false, one_service_for_all: false, shared_service: Default::default() }
 	}
 
 	/// A fresh per-connection tower service (takes the next connection id).
 	pub fn service(&self) -> jsonrpsee_server::TowerService<Identity, Identity> {
+		if self.one_service_for_all {
+			let mut g = self.shared_service.lock().unwrap();
+			return g.get_or_insert_with(|| self.builder.clone().build(self.methods.clone(), self.stop_handle.clone())).clone();
+		}
 		let b = self.builder.clone();
 		let b = if self.per_conn_http_middleware { b.set_http_middleware(tower::ServiceBuilder::new()) } else { b };
+		let b = if self.per_conn_rpc_middleware { b.set_rpc_middleware(jsonrpsee_server::middleware::rpc::RpcServiceBuilder::new()) } else { b };
 		b.build(self.methods.clone(), self.stop_handle.clone())
 	}
 
